@@ -6,8 +6,8 @@ from . import gen, pool, stage, tlcrun
 from .common import log, scratch, Timer
 
 PARAMS = {
-    "quick": dict(nfam=110, n=4, nrand=30, rand_len=6),
-    "thorough": dict(nfam=5000, n=5, nrand=1200, rand_len=8),
+    "quick": dict(nfam=110, n=4, nrand=30, rand_len=6, nidiom=120, nrr=60, neps=80),
+    "thorough": dict(nfam=1200, n=5, nrand=600, rand_len=8, nidiom=None, nrr=600, neps=None),
 }
 COMBOS = [("LALR", False, False), ("LALR", True, True), ("LALR", False, True), ("SLR", False, False)]
 
@@ -55,6 +55,33 @@ def _jobs(tier, seed):
         alpha = [t[2] for t in g["terms"]]
         words = list(gen.token_strings(alpha, 3)) + [w for w in gen.directed_inputs(g, rng, n_all=2, maxlen=5, n_sent=6, n_mut=4)]
         jobs.append({"g": g, "inputs": sorted({"".join(w) for w in words}), "origin": "det", "consume": True, "list": True})
+    # hand-written list / optional idioms in sequence (gen.idiom_family): all token strings <= 3, sentences up to 6 tokens and corruptions
+    rng = random.Random(31339)
+    for g in gen.idiom_family(limit=p["nidiom"], rng_seed=4712):
+        words = gen.directed_inputs(g, rng, n_all=3 if len(g["terms"]) < 3 else 2, maxlen=6, n_sent=12, n_mut=6)
+        inputs = sorted({gen.render(w, "spaces" if "," in w else rng.choice(["none", "none", "spaces"])) for w in words})
+        jobs.append({"g": g, "inputs": inputs, "origin": "det", "consume": True})
+    # whitespace layout written as a LAYOUT rule (the layout parser's table is built from the same Grammar object first)
+    rng = random.Random(31340)
+    for g in fam[2:: 6]:
+        words = gen.directed_inputs(g, rng, n_all=2, maxlen=5, n_sent=8, n_mut=4)
+        inputs = sorted({gen.render(w, rng.choice(gen.LAYOUTS)) for w in words})
+        g2 = {"prods": g["prods"], "terms": g["terms"] + [("WS_", "re", "\\s+")]}
+        jobs.append({"g": g2, "inputs": inputs, "origin": "det", "consume": True, "extra": "LAYOUT: LayoutItem_*;\nLayoutItem_: WS_;\n"})
+    # lookahead propagation through chains of nullable nonterminals (gen.epschain_family)
+    rng = random.Random(31342)
+    for g in gen.epschain_family(limit=p["neps"], rng_seed=4772):
+        words = gen.directed_inputs(g, rng, n_all=3 if len(g["terms"]) < 3 else 2, maxlen=5, n_sent=8, n_mut=3)
+        jobs.append({"g": g, "inputs": sorted({"".join(w) for w in words}), "origin": "det", "consume": True})
+    # reduce/reduce families (gen.rr_family): GLR heads in different states over the same input; all token strings <= 3 (sampled) + sentences
+    rng = random.Random(31341)
+    for g in gen.rr_family(p["nrr"]):
+        alpha = [t[2] for t in g["terms"]]
+        words = list(gen.token_strings(alpha, 3))
+        if len(words) > 70:
+            words = words[: len(alpha) + 1] + rng.sample(words[len(alpha) + 1:], 70)
+        words += gen.sentences(g, maxlen=4, limit=20)
+        jobs.append({"g": g, "inputs": sorted({" ".join(w) for w in words}), "origin": "det", "consume": True})
     rng = random.Random(2000003 * (seed + 1))
     k = 0
     while k < p["nrand"]:
@@ -101,7 +128,7 @@ def _run_glr(real, parser, w):
         with real.guard(10), real.quiet():
             f = parser.parse(w)
             try:
-                n = real.capped_int(len(f))
+                n = real.capped_int(real.flen(f))
             except real.LoopError:
                 n = -1
             trees = []
@@ -123,7 +150,7 @@ def worker(job):
     from . import real
 
     g = job["g"]
-    text = gen.gtext(g)
+    text = gen.gtext(g, job.get("extra", ""))
     ws = "\n\r\t "
     consume = job["consume"]
     out = []
@@ -162,7 +189,7 @@ def worker(job):
                 glr_runs[(tables, wkey)] = _run_glr(real, glrs[tables], w) if glrs[tables] else {"kind": "nobuild", "n": 0, "trees": [], "exc": NOEXC}
             lr = _run_lr(real, parser, w) if parser else {"kind": "nobuild", "tree": NOTREE, "exc": NOEXC}
             out.append({
-                "name": "%s [%s,ps=%d,pse=%d%s%s] @ %r" % (gen.gname(g), tables, ps, pse, "" if consume else ",prefix", ",list-input" if job.get("list") else "", w),
+                "name": "%s [%s,ps=%d,pse=%d%s%s] @ %r" % (gen.gname(g), tables, ps, pse, "" if consume else ",prefix", (",list-input" if job.get("list") else "") + (",LAYOUT-rule" if job.get("extra") else ""), w),
                 "listinput": bool(job.get("list")),
                 "gtext": text, "tables": tables, "ps": ps, "pse": pse, "prio": False, "consume": consume, "origin": job["origin"],
                 "built": parser is not None, "build_err": err or "", "prods": prods, "terms": terms, "tbl": tbl,
@@ -176,6 +203,12 @@ def judge(cases, tag="lr"):
     paths = tlcrun.write_shards(cases, scratch() + "/" + tag, max_bytes=3_000_000, min_shards=8)
     rs = tlcrun.run_shards("LRCheck", "LRCheck.cfg", paths, procs=4, workers=4)
     v = {x[1]: x for r in rs for x in r.verdicts}
+    for path in paths:
+        try:
+            import os
+            os.unlink(path)
+        except OSError:
+            pass
     if len(v) != len(cases):
         raise tlcrun.MachineryFailure("LRCheck: %d cases, %d verdicts" % (len(cases), len(v)))
     out = []
@@ -187,12 +220,30 @@ def judge(cases, tag="lr"):
     return out, {"states": sum(r.distinct for r in rs), "generated": sum(r.generated for r in rs)}
 
 
+CHUNK_CASES = 90000  # cases recorded and judged at a time (bounds memory)
+
+
 def build(tier, seed):
     t = Timer()
     jobs = _jobs(tier, seed)
-    cases = pool.flatten(pool.run_jobs("stage_lr", "worker", jobs))
-    log("lr corpus: %d jobs, %d cases recorded in %.1fs" % (len(jobs), len(cases), t.s()))
-    out, stats = judge(cases)
+    chunks, cur, n = [], [], 0
+    for j in jobs:
+        cur.append(j)
+        n += len(j["inputs"]) * len(COMBOS)
+        if n >= CHUNK_CASES:
+            chunks.append(cur)
+            cur, n = [], 0
+    if cur:
+        chunks.append(cur)
+    out, stats = [], {"states": 0, "generated": 0}
+    for k, chunk in enumerate(chunks):
+        cases = pool.flatten(pool.run_jobs("stage_lr", "worker", chunk))
+        log("lr corpus %d/%d: %d jobs, %d cases recorded (%.1fs)" % (k + 1, len(chunks), len(chunk), len(cases), t.s()))
+        o, st = judge(cases, tag="lr%d" % k)
+        out += o
+        for key in stats:
+            stats[key] += st[key]
+        del cases
     log("lr corpus judged in %.1fs" % t.s())
     return {"cases": out, "stats": stats}
 
